@@ -423,8 +423,8 @@ fn fat32_alloc_twin() {
 // ---- storage faults (C09): every device call may fail with a symbolic tag ----
 
 pub(crate) fn alloc_fault_case(ft: FatType, k: usize) {
-    let mut dev = NdDev::fault_at(k);
-    dev.budget = 40;
+    // 6-entry table (4 clusters), all content symbolic
+    let mut dev = FaultMem::<24>::any(k, 40);
     let hint: Option<u32> = if kani::any() { Some(kani::any()) } else { None };
     if let Some(h) = hint {
         kani::assume(h >= 2);
@@ -433,7 +433,7 @@ pub(crate) fn alloc_fault_case(ft: FatType, k: usize) {
     if let Some(p) = prev {
         kani::assume(p >= 2 && p < 6);
     }
-    let r = alloc_cluster::<NdDev, DevErr>(&mut dev, ft, prev, hint, 4);
+    let r = alloc_cluster::<_, DevErr>(&mut dev, ft, prev, hint, 4);
     if dev.fault_fired {
         match r {
             Err(Error::Io(e)) => assert!(e.tag == dev.first_tag),
@@ -445,18 +445,13 @@ pub(crate) fn alloc_fault_case(ft: FatType, k: usize) {
     kani::cover!(true);
 }
 
-fn iter_on<'a>(dev: &'a mut NdDev, ft: FatType, c: u32) -> ClusterIterator<&'a mut NdDev, DevErr, NdDev> {
-    ClusterIterator::new(dev, ft, c)
-}
-
-pub(crate) fn chain_fault_case(ft: FatType, truncate: bool, k: usize) {
-    let mut dev = NdDev::fault_at(k);
-    dev.budget = 30;
-    dev.eoc_after = 3;
+fn chain_fault_on<const N: usize>(ft: FatType, truncate: bool, k: usize) {
+    // 4-entry table (clusters 2 and 3), all content symbolic: whatever chain (even cyclic) the content describes
+    let mut dev = FaultMem::<N>::any(k, 30);
     let start: u32 = kani::any();
-    kani::assume(start >= 2 && start < 100);
+    kani::assume(start >= 2 && start < 4);
     let r = {
-        let mut it = iter_on(&mut dev, ft, start);
+        let mut it: ClusterIterator<&mut FaultMem<N>, DevErr, FaultMem<N>> = ClusterIterator::new(&mut dev, ft, start);
         if truncate {
             it.truncate()
         } else {
@@ -472,6 +467,14 @@ pub(crate) fn chain_fault_case(ft: FatType, truncate: bool, k: usize) {
         assert!(r.is_ok());
     }
     kani::cover!(true);
+}
+
+pub(crate) fn chain_fault_case(ft: FatType, truncate: bool, k: usize) {
+    match ft {
+        FatType::Fat12 => chain_fault_on::<6>(ft, truncate, k),
+        FatType::Fat16 => chain_fault_on::<8>(ft, truncate, k),
+        FatType::Fat32 => chain_fault_on::<16>(ft, truncate, k),
+    }
 }
 
 // @obl props=C03,C05,C08 tier=quick fns=ClusterIterator::free,ClusterIterator::next,get_next_cluster
